@@ -289,7 +289,7 @@ def real_writes(case, base=100):
     region = dec_region(case["region"])
     t = RecTarget(tuple(case["tshape"]))
     try:
-        da.store(x, t, regions=region, lock=False, scheduler="sync")
+        da.store(x, t, regions=region, lock=_fresh_lock(), scheduler="sync")
     except Exception as e:  # noqa: BLE001
         return err_name(e), None
     by_first = {}
@@ -321,7 +321,7 @@ def real_eval(case, base):
     _, x = dask_source(case, base)
     t = np.full(tuple(case["tshape"]), SENTINEL, dtype=np.int64)
     try:
-        da.store(x, t, regions=dec_region(case["region"]), lock=False, scheduler="sync")
+        da.store(x, t, regions=dec_region(case["region"]), lock=_fresh_lock(), scheduler="sync")
     except Exception as e:  # noqa: BLE001
         return err_name(e), None
     return "ok " + f_vals(t), t
@@ -599,7 +599,7 @@ def corr_multi(ctx):
             targets.setdefault(p["tid"], np.full(tuple(p["tshape"]), SENTINEL, dtype=np.int64))
         try:
             da.store([dask_source(p, p["base"])[1] for p in jobs], [targets[p["tid"]] for p in jobs],
-                     regions=[dec_region(p["region"]) for p in jobs], lock=False, scheduler="sync")
+                     regions=[dec_region(p["region"]) for p in jobs], lock=_fresh_lock(), scheduler="sync")
             impl = "ok " + " ".join(f"{tid}={f_vals(t)}" for tid, t in targets.items())
         except Exception as e:  # noqa: BLE001
             impl = err_name(e)
@@ -700,6 +700,16 @@ def check_case(case):
 
 
 # --------------------------------------------------------------------------- entry
+
+def _fresh_lock():
+    """one lock object per call: with lock=False an in-memory target is named by content only, and a call whose source and
+    target look like those of a call whose expression is still alive (not yet collected) collapses onto it (listed finding
+    `store:equal-looking-target-of-another-call:untouched`, probed separately in C25.py) - that would make the write-index
+    correspondence depend on garbage-collection timing"""
+    import threading
+
+    return threading.Lock()
+
 
 def run(ctx, replay=None):
     if replay is not None:
